@@ -170,10 +170,13 @@ class Dispatcher:
 
         # convert transported value to internal value
         value = pobj.datatype.import_value(value)
-        # verify range
-        value = pobj.datatype.validate(value, previous=pobj.value)
-        # note: exceptions are handled in handle_request, not here!
-        getattr(moduleobj, 'write_' + pname)(value)
+        # a partial struct is merged into the current value: no other thread (poller,
+        # other module) may change the parameter between the merge and the write
+        with moduleobj.accessLock:
+            # verify range
+            value = pobj.datatype.validate(value, previous=pobj.value)
+            # note: exceptions are handled in handle_request, not here!
+            getattr(moduleobj, 'write_' + pname)(value)
         # return value is ignored here, as already handled
         return pobj.export_value(), {'t': pobj.timestamp} if pobj.timestamp else {}
 
